@@ -95,10 +95,10 @@ fn fresh_tcp(router: &v::VRouter, c: &Conc) -> Vec<u8> {
     let r2 = router.clone();
     let bytes = c.bytes.clone();
     util::block_on(async move {
-        let l = tokio::net::TcpListener::bind("127.0.0.1:0").await.unwrap();
+        let l = tokio::net::TcpListener::bind("127.0.0.1:0").await.expect("harness: bind");
         let addr = l.local_addr().unwrap();
         let (c, sv) = tokio::join!(tokio::net::TcpStream::connect(addr), l.accept());
-        let (mut c, (sv, peer)) = (c.unwrap(), sv.unwrap());
+        let (mut c, (sv, peer)) = (c.expect("harness: connect (ephemeral ports exhausted?)"), sv.expect("harness: accept"));
         c.set_nodelay(true).ok();
         let server = tokio::spawn(async move { v::session(&r2, sv, peer.ip()).await });
         let mut out: Vec<u8> = vec![]; let mut buf = vec![0u8; 65536];
@@ -113,8 +113,10 @@ fn fresh_tcp(router: &v::VRouter, c: &Conc) -> Vec<u8> {
                 Ok(Ok(m)) => out.extend_from_slice(&buf[..m]),
             }
         };
-        let _ = c.shutdown().await;
-        loop { match tokio::time::timeout(std::time::Duration::from_millis(15000), c.read(&mut buf)).await { Ok(Ok(0)) | Ok(Err(_)) | Err(_) => break, Ok(Ok(_)) => {} } }
+        // the response is complete: reset the connection instead of closing it in an orderly way, so that the client's port is free again at
+        // once (tens of thousands of these connections per run would otherwise sit in TIME_WAIT and exhaust the ephemeral ports)
+        let _ = c.set_linger(Some(std::time::Duration::from_secs(0)));
+        drop(c);
         let _ = tokio::time::timeout(std::time::Duration::from_millis(5000), server).await;
         match first { Some(n) => strip_date(&out[..n]), None => b"<closed>".to_vec() }
     })
